@@ -1,7 +1,7 @@
 (* C08 - property theorems.  Only statements closed by [exact]; proofs live in Delayed/*.v. *)
 From Coq Require Import List ZArith String Bool Arith.
 Import ListNotations.
-From NV Require Import Delayed.Model Delayed.Spec Delayed.Tracked Delayed.Rel Delayed.Main Delayed.Refuted Delayed.ReachTable Delayed.MergeTracked Delayed.Stack.
+From NV Require Import Delayed.Model Delayed.Spec Delayed.Tracked Delayed.Rel Delayed.Main Delayed.Refuted Delayed.ReachTable Delayed.MergeTracked Delayed.Stack Delayed.RecEnv.
 
 (* pending_tracked, one statement per primitive *)
 Theorem C08_pending_tracked_at : forall es p i,
@@ -229,3 +229,24 @@ Theorem C08_laziness_stack : forall n k Ts o pos a,
   is_probe (run_stack n (plug k pos AProbe) Ts o) = false ->
   res_sim (run_stack n (plug k pos AProbe) Ts o) (run_stack n (plug k pos a) Ts o).
 Proof. exact laziness_stack. Qed.
+
+(* the recursive environment: a field observed through a sibling's recursive reference *)
+Theorem C08_sibling_ref_guarded : forall n fs j x p, lookup j fs = Some (x, p) ->
+  eval (S n) (subst_self (VRec fs) (TObs (OAccess j) TSelf))
+  = eval n (tctrs p (subst_self (VRec fs) x))
+  /\ eval (S n) (TObs (OAccess j) (TVal (Ok (VRec fs)))) = eval n (tctrs p (subst_self (VRec fs) x)).
+Proof. exact sibling_ref_guarded. Qed.
+
+Theorem C08_dependent_blames : forall n ds k j o a c v,
+  lookup k ds = Some (DDep o j) ->
+  (lookup j ds = Some (DAtom a) \/ lookup j ds = Some (DComp a)) ->
+  strict_scalar o = true -> flat c = true ->
+  atom_val a = Some v -> accepts c v = false ->
+  run (S (S (S (S (S n))))) (KRecR ds) (Some (CDictC c)) (OAccess k) = Err EBlame.
+Proof. exact dependent_blames. Qed.
+
+Theorem C08_rec_env_constraw_refuted :
+  exists n fs k,
+    bind (prim_record_access k (close_rec fs)) (eval n) = Err EBlame /\
+    access_constraw n k fs = Ok (VNum 2).
+Proof. exact constraw_refuted. Qed.
